@@ -69,4 +69,9 @@ theorem C17_export {α : Type} (D H bs : Nat) (mode : Bool) (leafIdx : List Nat)
 example : (Tree.build 1 3 2 false [3, 0, 3]).exportBy 0 (fun p => 10 + p) 3 = [10, 11, 12] :=
   C17_export 1 3 2 false [3, 0, 3] (by decide) 0 (fun p => 10 + p)
 
+/-- C08 / C09: the automatic block size is a legal block size (at least one element per group), whatever the
+    particles and the number of threads -/
+theorem autoBlockSize_pos (leafIdx : List Nat) (threads : Nat) : 0 < autoBlockSize leafIdx threads :=
+  Nat.lt_of_lt_of_le Nat.one_pos (Nat.le_max_left _ _)
+
 end Tbfmm
